@@ -238,3 +238,31 @@ Proof. repeat split; vm_compute; reflexivity. Qed.
 (* the largest SID of the property's domain is accepted: S-9-(2^48-1)-(2^32-1) x 15 *)
 Example C08_ex_max : sid_parse [83; 45; 57; 45; 50; 56; 49; 52; 55; 52; 57; 55; 54; 55; 49; 48; 54; 53; 53; 45; 52; 50; 57; 52; 57; 54; 55; 50; 57; 53; 45; 52; 50; 57; 52; 57; 54; 55; 50; 57; 53; 45; 52; 50; 57; 52; 57; 54; 55; 50; 57; 53; 45; 52; 50; 57; 52; 57; 54; 55; 50; 57; 53; 45; 52; 50; 57; 52; 57; 54; 55; 50; 57; 53; 45; 52; 50; 57; 52; 57; 54; 55; 50; 57; 53; 45; 52; 50; 57; 52; 57; 54; 55; 50; 57; 53; 45; 52; 50; 57; 52; 57; 54; 55; 50; 57; 53; 45; 52; 50; 57; 52; 57; 54; 55; 50; 57; 53; 45; 52; 50; 57; 52; 57; 54; 55; 50; 57; 53; 45; 52; 50; 57; 52; 57; 54; 55; 50; 57; 53; 45; 52; 50; 57; 52; 57; 54; 55; 50; 57; 53; 45; 52; 50; 57; 52; 57; 54; 55; 50; 57; 53; 45; 52; 50; 57; 52; 57; 54; 55; 50; 57; 53; 45; 52; 50; 57; 52; 57; 54; 55; 50; 57; 53] = Ok {| sid_rev := 9; sid_auth := 2 ^ 48 - 1; sid_subs := repeat (2 ^ 32 - 1) 15 |}.
 Proof. vm_compute; reflexivity. Qed.
+
+(* ---- flows: the source functions themselves, regenerated as syntax (gen/F_sd.v), compute the model functions above ------ *)
+(* World: Flow/World_sd.v. re.compile / .match := the model's recogniser sid_match for the pattern k_sid_regex (C08_regex,
+   C08_grammar); int() on a str := py_int; .split("-") := split_on; data[i] = v := set_item (bytearray item store);
+   sid_to_bytes / acl_to_bytes as callees := the model functions tied below. No hypothesis on the arguments other than their
+   Python classes (str, int, list of bytes, Optional list of bytes); any fuel (the only loop is a `for`). *)
+From V Require Import Prelude.PyAst Prelude.PyWorld gen.F_sd Flow.World_sd Proofs.Flow_sd_enc.
+Theorem C08_flow_sid_to_bytes : forall fuel s,
+  run W fuel k_flow_sid_to_bytes [VS s] = lift (sid_to_bytes s).
+Proof. exact flow_sid_to_bytes. Qed.
+Print Assumptions C08_flow_sid_to_bytes.
+
+Theorem C08_flow_ace_to_bytes : forall fuel sid access_mask,
+  run W fuel k_flow_ace_to_bytes [VS sid; VI access_mask] = lift (ace_to_bytes sid access_mask).
+Proof. exact flow_ace_to_bytes. Qed.
+Print Assumptions C08_flow_ace_to_bytes.
+
+Theorem C08_flow_acl_to_bytes : forall fuel aces,
+  run W fuel k_flow_acl_to_bytes [vlist aces] = lift (acl_to_bytes aces).
+Proof. exact flow_acl_to_bytes. Qed.
+Print Assumptions C08_flow_acl_to_bytes.
+
+(* sacl / dacl : Optional[List[bytes]]; None and [] both take the `if sacl:` else-branch (acl_of maps both to []) *)
+Theorem C08_flow_sd_to_bytes : forall fuel owner group sacl dacl,
+  run W fuel k_flow_sd_to_bytes [VS owner; VS group; vacl sacl; vacl dacl]
+  = lift (sd_to_bytes owner group (acl_of sacl) (acl_of dacl)).
+Proof. exact flow_sd_to_bytes. Qed.
+Print Assumptions C08_flow_sd_to_bytes.
